@@ -134,6 +134,9 @@ def fragment(v, case, reeval):
     """Attribute a fragment-check violation (needs v['exec'] = witness input and v['ckey'])."""
     ex = v.get("exec")
     target = (v["kind"], v.get("ckey"))
+    if v.get("atom") == "FEESINK" or str(v.get("ckey", "")).endswith(":FEESINK"):
+        # the witness value is the address AAAA..EVAL4QAJS7JHB4 which tealer's ZERO_ADDRESS constant takes for the zero address
+        return "zero-address-constant-is-a-nonzero-address"
     if not ex:
         # violation of an exactness monitor: no single witness input; only whole-program counterfactuals apply
         base = reeval(list(case.prog), case.version, None)
